@@ -108,13 +108,20 @@ CLAIMS = {
          "Coq corollary of the spec-equality theorems + multi-flavour correspondence"),
  "C07": ("Coq theorems (Props/C07.v): every index / slice bound / ArrayVec push of the modelled glue is an assert of the model, "
          "so the Ok of C01/C02/C03/C09 states that no index is out of range for any input; kernel-model footprints (exactly "
-         "one 32-byte CV per input, exactly 64 bytes per xof block, fill writes exactly n bytes). Harness (not a proof): every "
+         "one 32-byte CV per input, exactly 64 bytes per xof block, fill writes exactly n bytes); for ANY update history the "
+         "Rust hasher and the C glue (55-slot stack, chunk buffer, cv_array, output) stay in bounds and finalize_seek writes "
+         "exactly out_len bytes (corollaries of the C02 / C06 refinements); the STACK FRAMES of the eleven hand-written Unix "
+         "assembly functions are TRANSLATED (tools/gen_coq.py gen_asm_frames -> gen/GenAsmFrames.v: pushes, frame size, every "
+         "rsp-based operand with its width, pops, callee-saved registers written) and proved to keep every stack access "
+         "inside [rsp, rbp) for every incoming alignment and to restore rbx, rbp, r12-r15. Harness (not a proof): every "
          "kernel call of C05 and C-hasher histories with each buffer flush against a PROT_NONE page at the high and the low "
          "end, contiguous and separately allocated inputs, canaries around outputs, an assembly trampoline checking rbx, rbp, "
          "r12-r15 (and rsi, rdi, xmm6-15 for ms_abi), rsp and DF, ASan/UBSan builds in the thorough tier; Rust kernels with "
          "guard pages too. One genuine finding is recorded in known_findings.txt (assembly hash_many over-read).",
-         "Partial: the loads/stores executed inside assembly and intrinsics are not verified (no ISA semantics available): "
-         "the model states footprints, the harness checks them on the sampled calls.",
+         "Partial: the loads/stores through the argument pointers executed inside assembly and intrinsics are not verified (no "
+         "ISA semantics available): the model states footprints, the harness checks them on the sampled calls (each kernel "
+         "entered at all four legal stack alignments). The frame theorems cover the Unix assembly only and trust the translator's "
+         "reading of the operands; the Windows files are exercised by the harness only.",
          "Coq proof of index bounds and footprints on the models + guard-page / register-sentinel / sanitizer harness"),
  "C08": ("Coq theorems (Props/C08.v): in the split node of compress_subtree_wide the two halves write disjoint slot ranges of "
          "the cv_array; every interleaving of their write events (left-first, right-first, any concurrent schedule) leaves "
